@@ -206,3 +206,40 @@ def batch_differential(dense_proj, cuda_proj, cells, ys, policies=((1, 1), (2, 0
             seen.add(k)
             uniq.append((k, m))
     return uniq, info
+
+
+def build_cuda_solve_driver(proj, sanitize=True):
+    """The rendered cuSPARSE naunet.cpp (Init / Solve / Finalize) + kernels, compiled against the host emulation and
+    the scripted CVODE mock, with the same driver as the CPU back-ends (C19)."""
+    from ..ratecase import data_fields
+
+    gen = proj.path / "vt_cuda_src"
+    gen.mkdir(exist_ok=True)
+    srcs = []
+    for p in sorted((proj.path / "src").iterdir()):
+        if p.suffix not in (".cu", ".cpp") or p.stem in ("naunet_timer",):
+            continue
+        text, _ = rewrite_launches(p.read_text())
+        if "<<<" in text:
+            raise BuildError(f"{p.name}: a kernel launch was not rewritten")
+        q = gen / f"{p.stem}.cpp"
+        q.write_text(text)
+        srcs.append(str(q))
+    tmpl = (Path(__file__).resolve().parent / "driver_solve.cpp.in").read_text()
+    fields = data_fields(proj)
+    body = "".join(f"    data.{k} = {1.0 if v is None else v!r};\n" for k, v in fields.items())
+    rep = {"@@SCRIPT_PARSE@@": build._CVODE_PARSE, "@@SCRIPT_REPORT@@": build._CVODE_REPORT, "@@SCRIPT_RESET@@": "            vt_script() = VtScript();\n",
+           "@@EXTRA_INCLUDES@@": "", "@@DATA_FIELDS@@": body, "@@SCRIPT_DECL@@": ""}
+    for k, v in rep.items():
+        tmpl = tmpl.replace(k, v)
+    drv = gen / "vt_driver.cpp"
+    drv.write_text(tmpl)
+    exe = proj.path / "vt_driver"
+    flags = ["-std=c++14", "-O0", "-g", "-fno-omit-frame-pointer", "-Wno-everything", "-include", str(SHIM / "vt_cuda.h")]
+    if sanitize:
+        flags += ["-fsanitize=address,undefined", "-fno-sanitize-recover=undefined"]
+    cmd = [CXX, *flags, f"-I{SHIM}", f"-I{proj.path / 'include'}", *srcs, str(drv), "-o", str(exe)]
+    p = subprocess.run(cmd, capture_output=True, text=True)
+    if p.returncode != 0:
+        raise BuildError(p.stderr[-3000:])
+    return exe
